@@ -480,12 +480,17 @@ impl Check {
             .violations
             .iter()
             .filter(|v| v.signature.starts_with("harness"))
-            .map(|v| format!("{}: {}", v.signature, v.message))
+            .map(|v| format!("{}: {} case={}", v.signature, v.message, v.case))
             .collect();
 
         if !harness_errors.is_empty() {
             for e in harness_errors {
-                eprintln!("INCONCLUSIVE harness error: {e}");
+                eprintln!("INCONCLUSIVE harness error: {}", &e[..e.len().min(600)]);
+            }
+
+            if let Some(v) = self.violations.iter().find(|v| v.signature.starts_with("harness")) {
+                let body = json!({"property": self.property, "kind": v.kind, "signature": v.signature, "message": v.message, "case": v.case});
+                let _ = std::fs::write("/tmp/verif-harness-error.json", serde_json::to_string_pretty(&body).unwrap());
             }
 
             std::process::exit(2);
